@@ -128,6 +128,7 @@ func subEff(a, b etype) bool { // a usable where b is expected
 }
 
 type r10env struct {
+	litMemo   map[*ssa.Function]etype
 	inferBusy map[*ssa.Function]bool
 	p         *core.Prog
 	memo      map[ssa.Value]etype
@@ -393,6 +394,73 @@ func (e *r10env) inferGetter(f *ssa.Function) (etype, bool) {
 	return common, common != ""
 }
 
+// isCallbackSig: func(...) error that is not a folder.
+func isCallbackSig(t types.Type) bool {
+	sig, ok := t.Underlying().(*types.Signature)
+	return ok && sig.Results().Len() == 1 && errResultIndex(sig) == 0 && !isFoldShaped(sig)
+}
+
+// callbackType: the effect type of the function literals every caller passes
+// for a callback parameter; the literal's own body is run through the grammar.
+func (e *r10env) callbackType(prm *ssa.Parameter) (etype, string) {
+	f := prm.Parent()
+	idx := paramIndex(f, prm)
+	var common etype
+	sites := 0
+	for _, g := range e.p.ModFuncs() {
+		for _, b := range g.Blocks {
+			for _, in := range b.Instrs {
+				c, ok := in.(ssa.CallInstruction)
+				if !ok || c.Common().StaticCallee() != f || idx >= len(c.Common().Args) {
+					continue
+				}
+				sites++
+				var lit *ssa.Function
+				switch a := c.Common().Args[idx].(type) {
+				case *ssa.MakeClosure:
+					lit, _ = a.Fn.(*ssa.Function)
+				case *ssa.Function:
+					lit = a
+				}
+				if lit == nil || lit.Blocks == nil {
+					return "", "which " + core.FuncKey(g) + " does not pass as a function literal"
+				}
+				t, ok := e.literalEffect(lit)
+				if !ok {
+					return "", "and the literal passed by " + core.FuncKey(g) + " does not emit a word of the grammar for any effect type"
+				}
+				if common != "" && common != t {
+					return "", fmt.Sprintf("for which callers pass literals of different effect types (%s, %s)", common, t)
+				}
+				common = t
+			}
+		}
+	}
+	if sites == 0 {
+		return "", "which no caller in the module supplies"
+	}
+	return common, ""
+}
+
+func (e *r10env) literalEffect(lit *ssa.Function) (etype, bool) {
+	if e.litMemo == nil {
+		e.litMemo = map[*ssa.Function]etype{}
+	}
+	if t, ok := e.litMemo[lit]; ok {
+		return t, t != ""
+	}
+	e.litMemo[lit] = ""
+	for _, cand := range []etype{etV, etP, etK, etPQ, etPS} {
+		k := &r10client{e: e, p: e.p, fn: lit, num: newNumbering(), counted: map[ssa.Instruction]*countedFrame{}, lenBad: map[ssa.Instruction]string{}, lenOK: map[ssa.Instruction]bool{}}
+		_, capped := WalkPaths[r10state](k, lit.Blocks[0], 0, r10state{stack: string(initialFrame(cand))}, 100000, nil)
+		if !capped && len(k.bad) == 0 && len(k.lenBad) == 0 {
+			e.litMemo[lit] = cand
+			return cand, true
+		}
+	}
+	return "", false
+}
+
 // ---- automaton ----
 
 type r10state struct {
@@ -503,6 +571,9 @@ type countedFrame struct {
 	lenArg ssa.Value // the length argument as written
 	start  ssa.Instruction
 	pairNT []*ssa.Call // P* non-terminals that produced the members
+	// the announced length is an int parameter of the function (a helper that is told the count): the elements
+	// must come from the canonical loop `for i := 0; i < n; i++`
+	intParam *ssa.Parameter
 }
 
 type r10client struct {
@@ -581,11 +652,48 @@ func (k *r10client) Phis(s r10state, blk *ssa.BasicBlock, pred int) r10state {
 					k.lenBad[cf.start] = fmt.Sprintf("one loop iteration produces %d elements instead of exactly 1", s.cnt)
 				}
 			}
+			if cf := k.innermostCounted(s); cf != nil && cf.intParam != nil && !isBackEdge(blk, pred) && !canonicalCountLoop(blk, cf.intParam) {
+				k.lenBad[cf.start] = "the announced length is the parameter " + cf.intParam.Name() + " but the elements are not produced by the loop `for i := 0; i < " + cf.intParam.Name() + "; i++`"
+			}
 			s.cnt = 0
 			s.inLoop = true
 		}
 	}
 	return s
+}
+
+func isIntType(t types.Type) bool {
+	b, ok := t.Underlying().(*types.Basic)
+	return ok && b.Kind() == types.Int
+}
+
+// canonicalCountLoop: the loop header tests `i < n` for an induction variable
+// that starts at 0 and is incremented by 1 on every back edge.
+func canonicalCountLoop(hdr *ssa.BasicBlock, n *ssa.Parameter) bool {
+	iff, ok := hdr.Instrs[len(hdr.Instrs)-1].(*ssa.If)
+	if !ok {
+		return false
+	}
+	bo, ok := iff.Cond.(*ssa.BinOp)
+	if !ok || bo.Op != token.LSS || bo.Y != ssa.Value(n) {
+		return false
+	}
+	phi, ok := bo.X.(*ssa.Phi)
+	if !ok || phi.Block() != hdr {
+		return false
+	}
+	for pi, e := range phi.Edges {
+		if isBackEdge(hdr, pi) {
+			inc, ok := e.(*ssa.BinOp)
+			if !ok || inc.Op != token.ADD || inc.X != ssa.Value(phi) || !isIntConst(inc.Y, 1) {
+				return false
+			}
+		} else if !isIntConst(e, 0) {
+			return false
+		}
+	}
+	// the body is the true edge
+	return true
 }
 
 func (k *r10client) innermostCounted(s r10state) *countedFrame {
@@ -683,7 +791,9 @@ func (k *r10client) Instr(s r10state, in ssa.Instruction) (r10state, bool, []r10
 					if _, exists := k.counted[in]; !exists {
 						k.counted[in] = &countedFrame{depth: len(s.stack), root: root, lenVal: lv, lenArg: la, start: in}
 					}
-					if root == nil {
+					if prm, isPrm := la.(*ssa.Parameter); root == nil && isPrm && isIntType(prm.Type()) {
+						k.counted[in].intParam = prm
+					} else if root == nil {
 						if _, isC := la.(*ssa.Const); !isC {
 							k.lenBad[in] = "the announced length is not len(x) / x.Len() of a collection nor -1"
 						} else if c, _ := constIntVal(la); c != 0 {
@@ -737,6 +847,16 @@ func (k *r10client) Instr(s r10state, in ssa.Instruction) (r10state, bool, []r10
 				nt, isNT = t, true
 			}
 		}
+	} else if prm, isPrm := cc.Value.(*ssa.Parameter); isPrm && isCallbackSig(prm.Type()) {
+		// a callback the function was handed (the element producer of a shared loop helper): its effect type is what
+		// every caller passes
+		t, why := k.e.callbackType(prm)
+		if why != "" {
+			k.fail("CB@"+pos, fmt.Sprintf("calls the callback parameter %s at %s, %s", prm.Name(), pos, why))
+			s.dead = true
+			return s, false, nil
+		}
+		nt, isNT = t, true
 	} else if _, isB := cc.Value.(*ssa.Builtin); !isB {
 		sig, ok := cc.Value.Type().Underlying().(*types.Signature)
 		if ok && errResultIndex(sig) >= 0 && sig.Params().Len() >= 1 && isFoldShaped(sig) {
@@ -1002,26 +1122,64 @@ func typeAnnounce(p *core.Prog, r *core.Result, f *ssa.Function) {
 	root := p.SPkgs["structform"]
 	fkey := core.FuncKey(f)
 	var announced, elemEvent string
-	for _, b := range f.Blocks {
-		for _, in := range b.Instrs {
-			c, ok := in.(*ssa.Call)
-			if !ok || !c.Common().IsInvoke() {
-				continue
+	constName := func(v ssa.Value) string {
+		cst, ok := v.(*ssa.Const)
+		if !ok || cst.Value == nil {
+			return ""
+		}
+		for name, m := range root.Members {
+			if nc, ok := m.(*ssa.NamedConst); ok && strings.HasSuffix(name, "Type") && nc.Value.Value.ExactString() == cst.Value.ExactString() && types.Identical(nc.Type(), cst.Type()) {
+				return name
 			}
-			switch n := c.Common().Method.Name(); {
-			case n == "OnArrayStart" || n == "OnObjectStart":
-				if cst, ok := c.Common().Args[1].(*ssa.Const); ok && cst.Value != nil {
-					for name, m := range root.Members {
-						if nc, ok := m.(*ssa.NamedConst); ok && strings.HasSuffix(name, "Type") && nc.Value.Value.ExactString() == cst.Value.ExactString() && types.Identical(nc.Type(), cst.Type()) {
+		}
+		return ""
+	}
+	var scan func(g *ssa.Function, bind map[*ssa.Parameter]ssa.Value, depth int)
+	scan = func(g *ssa.Function, bind map[*ssa.Parameter]ssa.Value, depth int) {
+		for _, b := range g.Blocks {
+			for _, in := range b.Instrs {
+				c, ok := in.(*ssa.Call)
+				if !ok {
+					continue
+				}
+				if c.Common().IsInvoke() {
+					switch n := c.Common().Method.Name(); {
+					case n == "OnArrayStart" || n == "OnObjectStart":
+						a := c.Common().Args[1]
+						if prm, ok := a.(*ssa.Parameter); ok && bind[prm] != nil {
+							a = bind[prm]
+						}
+						if name := constName(a); name != "" {
 							announced = name
+						}
+					case eventKind(n) == "V":
+						elemEvent = n
+					}
+					continue
+				}
+				// the expansion may be delegated to a shared helper of the adapter that is told the element type and
+				// how to emit one element (a function literal)
+				sc := c.Common().StaticCallee()
+				if sc == nil || depth >= 1 || sc.Blocks == nil || sc == g || !isProducerFunc(p, sc) {
+					continue
+				}
+				nb := map[*ssa.Parameter]ssa.Value{}
+				for i, a := range c.Common().Args {
+					if i >= len(sc.Params) {
+						break
+					}
+					nb[sc.Params[i]] = a
+					if mc, ok := a.(*ssa.MakeClosure); ok {
+						if lit, ok := mc.Fn.(*ssa.Function); ok && lit.Blocks != nil {
+							scan(lit, nil, depth+1)
 						}
 					}
 				}
-			case eventKind(n) == "V":
-				elemEvent = n
+				scan(sc, nb, depth+1)
 			}
 		}
 	}
+	scan(f, nil, 0)
 	pos := p.Pos(f.Pos())
 	if announced == want[0] && elemEvent == want[1] {
 		r.Ok(".TYPE-ANNOUNCE", pos, fmt.Sprintf("%s: []%s announced as %s, elements emitted with %s", fkey, eb.Name(), announced, elemEvent))
@@ -1109,8 +1267,8 @@ func R10(p *core.Prog) *core.Result {
 					if !ok {
 						continue
 					}
-					if _, isSlice := a.Type().Underlying().(*types.Slice); isSlice {
-						continue // []reFoldFn of field folders: elements come from buildFieldFold (checked by its getter type)
+					if !isFuncOrPtrToFunc(a.Type()) {
+						continue // []reFoldFn of field folders (or a struct holding it): elements come from buildFieldFold (checked by its getter type)
 					}
 					pos := p.Pos(c.Pos())
 					key := fmt.Sprintf("%s|%s|arg%d", core.FuncKey(g), core.FuncKey(sc), ai)
